@@ -113,6 +113,12 @@ package implementation
 //@   ensures-local[exact-amount-and-token] err == nil ==> val(descendants[0].Amount) == old(stg(context).htlcAmt)[param.Id] && descendants[0].TokenStandard == old(stg(context).htlcToken)[param.Id]
 //@   ensures-local[before-expiry] err == nil ==> context.now < old(stg(context).htlcExp)[param.Id]
 //@   ensures-local[preimage-size] err == nil ==> len(param.Preimage) <= old(stg(context).htlcKeyMax)[param.Id]
+// (each clause, once proved at a return, is a hypothesis for the clauses after it: the first five are the steps of the last)
+//@   ensures-local[digest-is-32-bytes] err == nil ==> len(hashedPreimage) == 32 && len(htlcInfo.HashLock) == 32
+//@   ensures-local[digest-compared-with-lock] err == nil ==> (forall j int :: 0 <= j && j < 32 ==> hashedPreimage[j] == htlcInfo.HashLock[j])
+//@   ensures-local[lock-is-the-stored-one] err == nil ==> (forall j int :: 0 <= j && j < 32 ==> htlcInfo.HashLock[j] == old(stg(context).htlcLockByte)[param.Id][j])
+//@   ensures-local[hash-type-known] err == nil ==> htlcInfo.HashType == old(stg(context).htlcHashType)[param.Id] && (htlcInfo.HashType == 0 || htlcInfo.HashType == 1)
+//@   ensures-local[digest-of-presented-preimage] err == nil ==> (forall j int :: 0 <= j && j < 32 ==> hashedPreimage[j] == digestb(old(stg(context).htlcHashType)[param.Id], bytesval(param.Preimage), j))
 //@   ensures-local[correct-preimage] err == nil ==> (forall j int :: 0 <= j && j < 32 ==> old(stg(context).htlcLockByte)[param.Id][j] == digestb(old(stg(context).htlcHashType)[param.Id], bytesval(param.Preimage), j))
 //@   ensures-local[never-twice] err == nil ==> stg(context).htlcHas == store(old(stg(context).htlcHas), param.Id, false) && stg(context).htlcAmt == store(old(stg(context).htlcAmt), param.Id, 0)
 //@   modifies sendBlock.Data, MF:common/db.DB.htlcHas, MF:common/db.DB.htlcAmt
